@@ -145,42 +145,47 @@ def explore(cls, N, max_states=20000, max_depth=12, on_transition=None):
         if len(hist) >= max_depth:
             complete = False
             continue
-        # copy independence from this state: an operation on either side is invisible on the other
+        # every operation is tried twice from this state: in place (on a structure-preserving clone, so that
+        # set objects stay shared exactly as the history left them) and on a copy() of it
+        import copy as _copy
         for op in all_ops(ref, U):
-            ntrans += 1
-            try:
-                r2, ref2 = r.copy(), ref.copy()
-            except Exception as e:
-                return dict(states=len(seen), transitions=ntrans, violation=(hist + (("copy",),), f"copy raised {type(e).__name__}: {e}"), complete=False, witnesses=seen)
-            bad = check_against(r2, ref2, U)
-            if bad:
-                return dict(states=len(seen), transitions=ntrans, violation=(hist + (("copy",),), "copy: " + bad), complete=False, witnesses=seen)
-            before = observe(r, U)
-            err = apply_op(r2, ref2, op)
-            h2 = hist + (op,)
-            if err:
-                return dict(states=len(seen), transitions=ntrans, violation=(h2, err), complete=False, witnesses=seen)
-            bad = check_against(r2, ref2, U)
-            if bad:
-                return dict(states=len(seen), transitions=ntrans, violation=(h2, bad), complete=False, witnesses=seen)
-            if observe(r, U) != before:
-                return dict(states=len(seen), transitions=ntrans, violation=(hist + (("copy",), op), "operation on a copy changed the source"), complete=False, witnesses=seen)
-            if on_transition is not None:
-                on_transition(r, op, r2)
-            # and the other direction: mutate the source of a copy, the copy must not move
-            r3 = r.copy()
-            r4, ref4 = r3.copy(), ref.copy()
-            snap = observe(r4, U)
-            apply_op(r3, ref.copy(), op)
-            if observe(r4, U) != snap:
-                return dict(states=len(seen), transitions=ntrans, violation=(hist + (("copy",), op), "operation on the source changed its copy"), complete=False, witnesses=seen)
-            k = state_key(r2)
-            if k not in seen:
-                if len(seen) >= max_states:
-                    complete = False
-                    continue
-                seen[k] = h2
-                q.append((r2, ref2, h2))
+            for via_copy in (False, True):
+                ntrans += 1
+                try:
+                    r2, ref2 = (r.copy() if via_copy else _copy.deepcopy(r)), ref.copy()
+                except Exception as e:
+                    return dict(states=len(seen), transitions=ntrans, violation=(hist + (("copy",),), f"copy raised {type(e).__name__}: {e}"), complete=False, witnesses=seen)
+                pre = (("copy",),) if via_copy else ()
+                bad = check_against(r2, ref2, U)
+                if bad:
+                    return dict(states=len(seen), transitions=ntrans, violation=(hist + pre, "copy: " + bad), complete=False, witnesses=seen)
+                before = observe(r, U)
+                err = apply_op(r2, ref2, op)
+                h2 = hist + pre + (op,)
+                if err:
+                    return dict(states=len(seen), transitions=ntrans, violation=(h2, err), complete=False, witnesses=seen)
+                bad = check_against(r2, ref2, U)
+                if bad:
+                    return dict(states=len(seen), transitions=ntrans, violation=(h2, bad), complete=False, witnesses=seen)
+                if via_copy and observe(r, U) != before:
+                    return dict(states=len(seen), transitions=ntrans, violation=(h2, "operation on a copy changed the source"), complete=False, witnesses=seen)
+                if on_transition is not None and not via_copy:
+                    on_transition(r, op, r2)
+                if via_copy:
+                    # and the other direction: mutate the source of a copy, the copy must not move
+                    r3 = _copy.deepcopy(r)
+                    r4 = r3.copy()
+                    snap = observe(r4, U)
+                    apply_op(r3, ref.copy(), op)
+                    if observe(r4, U) != snap:
+                        return dict(states=len(seen), transitions=ntrans, violation=(hist + (("copy-kept-aside",), op), "operation on the source changed its copy"), complete=False, witnesses=seen)
+                k = state_key(r2)
+                if k not in seen:
+                    if len(seen) >= max_states:
+                        complete = False
+                        continue
+                    seen[k] = h2
+                    q.append((r2, ref2, h2))
     return dict(states=len(seen), transitions=ntrans, violation=None, complete=complete, witnesses=seen)
 
 
@@ -189,11 +194,15 @@ def replay_history(cls, N, hist):
     U = names(N)
     r, ref = cls(), RefRel(U)
     stack = []
+    aside = None
     for op in hist:
         op = tuple(op)
         if op[0] == "copy":
             stack.append((r, ref.copy(), observe(r, U)))
             r, ref = r.copy(), ref.copy()
+        elif op[0] == "copy-kept-aside":
+            aside = (r.copy(), None)
+            aside = (aside[0], observe(aside[0], U))
         else:
             err = apply_op(r, ref, op)
             if err:
@@ -204,4 +213,6 @@ def replay_history(cls, N, hist):
         for src, sref, snap in stack:
             if observe(src, U) != snap:
                 return "operation on a copy changed the source"
+        if aside is not None and observe(aside[0], U) != aside[1]:
+            return "operation on the source changed its copy"
     return None
